@@ -6,7 +6,7 @@ uint8_t vf_dead = 0, vf_stepping = 0;
 uint32_t vf_cur = 0;
 uint8_t vf_probe_mode = 0;
 uint16_t vf_pc[VF_MAXT];
-uint8_t vf_done[VF_MAXT], vf_enabled[VF_MAXT], vf_blocked[VF_MAXT], vf_pausecnt[VF_MAXT];
+uint8_t vf_done[VF_MAXT], vf_enabled[VF_MAXT], vf_blocked[VF_MAXT], vf_pausecnt[VF_MAXT], vf_probe_retry[VF_MAXT];
 uint8_t vf_unwinding = 0;
 uint32_t vf_jmpval = 0;
 
@@ -142,12 +142,18 @@ void vf_hb_read(char* p) {
 }
 /* library-contract edges (mutex unlock->lock, notify->wake, ...): release/acquire on a ghost key */
 void vf_hb_edge_out(char* key) {
+#ifndef VF_HB
+  return;
+#endif
   vf_hb_init();
   uint32_t l = vf_loc_find(key), c = vf_cur;
   for (unsigned t = 0; t < VF_MAXT; ++t) if (vf_loc_vc[l][t] < vf_vc[c][t]) vf_loc_vc[l][t] = vf_vc[c][t];
   vf_vc[c][c]++;
 }
 void vf_hb_edge_in(char* key) {
+#ifndef VF_HB
+  return;
+#endif
   vf_hb_init();
   uint32_t l = vf_loc_find(key), c = vf_cur;
   for (unsigned t = 0; t < VF_MAXT; ++t) if (vf_vc[c][t] < vf_loc_vc[l][t]) vf_vc[c][t] = vf_loc_vc[l][t];
